@@ -7,7 +7,7 @@ From Verif Require Import Base.Prelude Base.StrOrd Base.Graph Model.MapSpec Mode
 From Verif Require Model.Pipe.
 From Verif Require Import Model.Mutate.
 From Verif Require Import Corr.Run_C12 Proofs.PrepareFacts Proofs.ValidateFacts Proofs.ValidateDecide Proofs.MutateFacts
-  Proofs.ValidateClasses.
+  Proofs.ValidateClasses Proofs.ValidateBridge.
 
 (* ---------- construction ---------- *)
 (* what construction accepts is free of every construction-time fault class of the property *)
@@ -39,6 +39,35 @@ Theorem C12_validate_map_complete_per_fault : forall q,
   exists e, validate_map q = Err e.
 Proof. exact validate_map_complete_per_fault. Qed.
 Print Assumptions C12_validate_map_complete_per_fault.
+
+(* ---------- the bridge to C02 / C09 / C10 / C11 / C13 / C18 ---------- *)
+(* What the constructor's own validation accepts satisfies `Pipe.wf_pipelineb`, the precondition of the theorems
+   about Pipeline.run.  `pythonic`: what Python itself guarantees and pipefunc does not validate (an output name
+   exists, the signature has distinct parameter names, dict keys are distinct) + the harness convention that
+   __name__ identifies a function. *)
+Theorem C12_construct_ok_wf_pipeline : forall fs,
+  pythonic fs -> validate_construct fs = Ok tt -> Pipe.wf_pipelineb (lift fs) = true.
+Proof. exact construct_ok_wf_pipeline. Qed.
+Print Assumptions C12_construct_ok_wf_pipeline.
+
+(* The converse does not hold: Pipeline.add checks the defaults incrementally, so a default conflict on a name that
+   only a LATER function turns into an output is refused although the complete pipeline is well-formed
+   (h(a, b="1") -> c, k(c, b="2") -> d, mk() -> b: accepted as [mk; h; k], refused as [h; k; mk]). *)
+Example C12_bridge_converse_fails :
+  let F n o ps d := {| rname := s n; routs := [s o]; rparams := ps; rsigd := d; rdefs := []; rbound := [];
+                       rspec := None; rint := [] |} in
+  let h := F "h"%string "c"%string [s "a"; s "b"] [(s "b", s "1")] in
+  let k := F "k"%string "d"%string [s "c"; s "b"] [(s "b", s "2")] in
+  let mk := F "mk"%string "b"%string [] [] in
+  Pipe.wf_pipelineb (lift [h; k; mk]) = true /\ validate_construct [h; k; mk] = Err ValueError
+  /\ validate_construct [mk; h; k] = Ok tt /\ pythonic [h; k; mk].
+Proof.
+  cbv zeta. split; [vm_compute; reflexivity|]. split; [vm_compute; reflexivity|]. split; [vm_compute; reflexivity|].
+  split.
+  - intros g Hg. cbn in Hg.
+    destruct Hg as [<-|[<-|[<-|[]]]]; cbn; (split; [discriminate|]); split; repeat constructor; cbn; intuition discriminate.
+  - cbn. repeat constructor; cbn; intuition discriminate.
+Qed.
 
 (* ---------- exception classes ---------- *)
 (* construction: ValueError for every fault class; a cycle - checked last in Pipeline.add - is
